@@ -32,11 +32,22 @@ def collections(thorough):
     return out
 
 
-def trees_for(payload, for_search=False):
+def full_family():
+    """the deterministic input family of C03: every atom, its negation, and every (atom op atom) pair of both grids"""
+    coll, sets = makers()
+    trees = []
+    for mk in (coll, sets):
+        trees += [gen.mk(op, mk[a](), mk[b]()) for a in range(len(mk)) for b in range(len(mk)) for op in ("and", "or", "xor")]
+        for m in mk:
+            trees += [m(), gen.mk("not", m())]
+    return trees, collections(True), False
+
+
+def trees_for(payload, for_search=False, flags=False):
     rng = rng_of(payload)
     thorough = payload["tier"] == "thorough" or (for_search and payload.get("deep"))
     coll, sets = makers()
-    trees = []
+    trees, family = [], []
     for mk in (coll, sets):
         pairs = [(a, b, op) for a in range(len(mk)) for b in range(len(mk)) for op in ("and", "or", "xor")]
         for a, b, op in (pairs if thorough and len(pairs) < 20000 else rng.sample(pairs, min(len(pairs), 6000 if thorough else 1200))):
@@ -44,8 +55,12 @@ def trees_for(payload, for_search=False):
         for m in mk:
             trees.append(m())
             trees.append(gen.mk("not", m()))
+        family += [True] * (len(trees) - len(family))
         for _ in range(4000 if thorough else 600):
             trees.append(gen.build(gen.random_shape(rng, len(mk), rng.choice([2, 3])), mk))
+        family += [False] * (len(trees) - len(family))
+    if flags:
+        return trees, family
     return trees
 
 
@@ -58,11 +73,13 @@ def correspondence(payload):
 
 def search(payload):
     thorough = payload["tier"] == "thorough" or payload.get("deep")
-    return oc.search(trees_for(payload, for_search=True), collections(thorough), "C03", payload)
+    trees, family = trees_for(payload, for_search=True, flags=True)
+    return oc.search(trees, collections(thorough), "C03", payload, family=family)
 
 
 def replay(payload):
     return oc.replay(payload)
 
 
-main({"correspondence": correspondence, "search": search, "replay": replay})
+if __name__ == "__main__":
+    main({"correspondence": correspondence, "search": search, "replay": replay})
